@@ -6,7 +6,7 @@
    functions equal the textbook sums; over the reals (Rops; Stdlib Reals, hence its classical axioms
    ClassicalDedekindReals.sig_not_dec, ClassicalDedekindReals.sig_forall_dec,
    FunctionalExtensionality.functional_extensionality_dep and, where Print Assumptions lists it,
-   Classical_Prop.classic) euclid = sqrt o sqdist and cosine = dot / sqrt (norm2 * norm2) satisfy the
+   Classical_Prop.classic) euclid = sqrt o sqdist and cosine = dot / (sqrt norm2 * sqrt norm2) satisfy the
    metric laws.  What is NOT proved: the same laws for the f32 SIMD arithmetic of the implementation (they hold
    only up to rounding; observed by tools/props/c16.py under a stated tolerance) - the "f32 partial" of the design. *)
 From Coq Require Import List Arith NArith ZArith QArith Bool Reals.
@@ -70,7 +70,7 @@ Proof. exact norm2_packed_same_len_Q. Qed.
 
 Close Scope Q_scope.
 
-(* ---- the real-number reading: euclid = sqrt o sqdist, cosine = dot / sqrt (norm2 * norm2) ---- *)
+(* ---- the real-number reading: euclid = sqrt o sqdist, cosine = dot / (sqrt norm2 * sqrt norm2) ---- *)
 
 Open Scope R_scope.
 
@@ -79,7 +79,7 @@ Theorem euclid_packed_is_textbook : forall u v : list R, length u = length v ->
 Proof. exact euclid_packed_same_len. Qed.
 
 Theorem cosine_packed_is_textbook : forall u v : list R, length u = length v ->
-    cosine (pack R 0 u) (pack R 0 v) = r_dot u v / sqrt (r_norm2 u * r_norm2 v).
+    cosine (pack R 0 u) (pack R 0 v) = r_dot u v / (sqrt (r_norm2 u) * sqrt (r_norm2 v)).
 Proof. exact cosine_packed_same_len. Qed.
 
 (* Euclidean distance: symmetric and zero on identical arguments for ALL packed features (any lengths) *)
